@@ -13,7 +13,7 @@ import solve_oracles as so
 ACCEPT_TARGETS = ["DfolsVerif.Driver.AcceptDrv"]
 
 
-def gen_run(dfols, seed_tuple, allow=None, alarm=10.0, mutate_cfg=None, fault=None):
+def gen_run(dfols, seed_tuple, allow=None, alarm=10.0, mutate_cfg=None, fault=None, maxfun_override=None):
     rng = np.random.default_rng(seed_tuple)
     prob = problems.rand_problem(rng)
     if allow is None:
@@ -22,7 +22,21 @@ def gen_run(dfols, seed_tuple, allow=None, alarm=10.0, mutate_cfg=None, fault=No
         kw, d = problems.rand_config(rng, prob, allow=allow)
     if mutate_cfg is not None:
         mutate_cfg(rng, prob, kw, d)
+    if maxfun_override is not None:
+        kw["maxfun"] = int(maxfun_override)
+        d["maxfun"] = int(maxfun_override)
+        d["maxfun_override"] = True
     f = prob["f"]
+    if d.get("avg") and rng.random() < 0.5:
+        # a genuinely noisy objective under sample averaging (seeded: the run replays exactly): with a deterministic one
+        # every sample of a point is the same vector and a mix-up of samples would be invisible
+        nrng = np.random.default_rng([int(v) for v in seed_tuple] + [4242])
+        f0 = f
+
+        def f(x, f0=f0, nrng=nrng):
+            r = np.asarray(f0(x), dtype=float)
+            return r + 1e-3 * (1.0 + np.abs(r)) * nrng.normal(size=r.shape)
+        d["noisy_objective"] = True
     if fault is not None:
         f = problems.faulty(f, fault[0], fault[1])
         d["fault"] = list(fault)
@@ -125,6 +139,10 @@ def check_acceptor(ctx, acc_name, runs, metas, extra_compare=None, limit_broken=
         if not a["ok"]:
             nrej += 1
             rejected.append((seed, d, a))
+            if not hasattr(ctx, "_rejected"):
+                ctx._rejected = []
+            if "at" in a and len(seed) == 3:
+                ctx._rejected.append((acc_name, seed, sum(1 for e in t.events[:a["at"] + 1] if e[0] == "obj")))
             if nrej <= limit_broken:
                 ev = t.events[a["at"]] if "at" in a and a["at"] < len(t.events) else None
                 ctx.broke("correspondence:%s-rejects-real-trace" % acc_name,
@@ -138,6 +156,26 @@ def check_acceptor(ctx, acc_name, runs, metas, extra_compare=None, limit_broken=
                     ctx.broke("correspondence:%s-prediction-differs" % acc_name, {"seed": seed, "config": describe(d), "detail": msg})
     ctx.cov["acceptor_" + acc_name] = {"traces": len(runs), "rejected_or_differing": nrej}
     return rejected
+
+
+def rejection_budgets(ctx, oracle, allow=None, mutate_cfg=None, alarm=10.0, limit=6):
+    """failing-input search aimed at what an acceptor rejected: the same run is repeated with the budget ending at the
+    evaluation where the rejected event happened (and one before / after) — a book-keeping slip that the run later
+    repairs by luck (the lost point is found again) shows in the result of a run that stops right there.
+    oracle(t, d, kw) -> [(signature, what)]"""
+    dfols = core.import_dfols()
+    done = 0
+    for acc_name, seed, nf_at in getattr(ctx, "_rejected", [])[:limit]:
+        for mf in (nf_at, nf_at + 1, nf_at - 1):
+            if mf < 1:
+                continue
+            prob, kw, d, t = gen_run(dfols, seed, allow=allow, alarm=alarm, mutate_cfg=mutate_cfg, maxfun_override=mf)
+            done += 1
+            ctx.seen(("rejection-budget", tuple(seed), mf))
+            for sig, what in oracle(t, d, kw):
+                ctx.fail(sig + "|at-rejected-event", what + " (budget placed at the event the %s acceptor rejected)" % acc_name,
+                         {"seed": seed, "maxfun_override": mf, "config": describe(d)})
+    ctx.cov["rejection_budget_runs"] = done
 
 
 def budget_sweep(ctx, suite_const, nbases_quick, nbases_thorough, width=36, alarm=10.0):
